@@ -283,7 +283,7 @@ func runC14(sc *c14Scenario) *c14Result {
 			st.Handle = len(handles) - 1
 		}
 		recv := handles[st.Handle]
-		base := strings.SplitN(st.Op, "/", 2)[0]
+		base := strings.TrimSuffix(strings.SplitN(st.Op, "/", 2)[0], "+secrets")
 		var res *types.Project
 		var err error
 		switch base {
@@ -363,6 +363,8 @@ func runC14(sc *c14Scenario) *c14Result {
 		case "observe":
 			checkAll(i, st.Op, -1)
 			continue
+		default:
+			panic("c14: operation not implemented in the harness: " + st.Op)
 		}
 		msg := fmt.Sprintf("step %d: %s(%v,%v) on handle #%d", i, st.Op, st.Args, st.Flag, st.Handle)
 		if err != nil {
